@@ -1,6 +1,7 @@
 package plush
 
 import (
+	"errors"
 	"fmt"
 	"strings"
 
@@ -51,16 +52,22 @@ func (h HelperContext) BlockWith(hc hctx.Context) (string, error) {
 		return "", fmt.Errorf("expected *Context, got %T", hc)
 	}
 
-	octx := h.compiler.ctx
-	defer func() { h.compiler.ctx = octx }()
-	h.compiler.ctx = ctx
-
 	if h.block == nil {
 		return "", fmt.Errorf("no block defined")
 	}
 
-	i, err := h.compiler.evalBlockStatement(h.block)
+	// the block is evaluated with evaluator state of its own: a block stored by
+	// contentFor outlives the execution that defined it and may be run by
+	// several later executions at the same time
+	cc := *h.compiler
+	cc.ctx = ctx
+	cc.blockExit = nil
+
+	i, err := cc.evalBlockStatement(h.block)
 	if err != nil {
+		if blockFailureOf(err, cc.program) == nil && cc.curStmt != nil {
+			err = &blockFailure{stmt: cc.curStmt, program: cc.program, err: err}
+		}
 		return "", err
 	}
 
@@ -78,7 +85,36 @@ func (h HelperContext) BlockWith(hc hctx.Context) (string, error) {
 	}
 
 	bb := &strings.Builder{}
-	h.compiler.write(bb, i)
+	cc.write(bb, i)
 
 	return bb.String(), nil
+}
+
+// blockFailure carries the statement of a helper's block at which evaluation
+// failed, so that the error is reported at the line of that statement.
+type blockFailure struct {
+	stmt    ast.Statement
+	program *ast.Program
+	err     error
+}
+
+func (e *blockFailure) Error() string { return e.err.Error() }
+
+func (e *blockFailure) Unwrap() error { return e.err }
+
+// blockFailureOf finds in err's chain the innermost failing statement recorded
+// for a block of the given program.
+func blockFailureOf(err error, program *ast.Program) ast.Statement {
+	for err != nil {
+		var bf *blockFailure
+		if !errors.As(err, &bf) {
+			return nil
+		}
+		if bf.program == program {
+			return bf.stmt
+		}
+		err = bf.err
+	}
+
+	return nil
 }
